@@ -66,6 +66,18 @@ def run_units(u):
     sub = pairs if u['tier'] == 'thorough' else pairs[::5]
     for (l1, t1) in sub:
         for (l2, t2) in ([(l_, t_) for l_ in Ls for t_ in Ts] if u['tier'] == 'thorough' else [(l_, t_) for l_ in Ls for t_ in Ts][::7]):
+            # definition: the SI value of the quantity is the same before and after (this is what pins each conversion to the tables;
+            # reversibility and transitivity alone are also satisfied by a conversion that uses the wrong table entry consistently)
+            def replay_fn(fn_, args, ref_):
+                def on_sat(model):
+                    xv = float(model_value(model, x) or 1.0) or 1.0
+                    got = fn_(xv, *args); want = ref_(xv)
+                    bad = abs(got - want) > 1e-12 * abs(want)
+                    return bad, 'C20:units:%s' % fn_.__name__, "%s(%r, %s) = %r, definition gives %r" % (fn_.__name__, xv, ', '.join(args), got, want), dict(kind='units_fn', fn=fn_.__name__, args=list(args), x=xv)
+                return on_sat
+            Lr, Tr = U.lengths_SI, U.times_SI
+            ob.prove("velocity %s/%s -> %s/%s keeps the SI value" % (l1, t1, l2, t2), U.convert_vel(x, l1, t1, l2, t2) * Lr[l2] / Tr[t2] == x * Lr[l1] / Tr[t1], [], on_sat=replay_fn(U.convert_vel, (l1, t1, l2, t2), lambda xv: xv * Lr[l1] / Tr[t1] * Tr[t2] / Lr[l2]), domain='REAL (real Python code on z3 terms)')
+            ob.prove("acceleration %s/%s^2 -> %s/%s^2 keeps the SI value" % (l1, t1, l2, t2), U.convert_acc(x, l1, t1, l2, t2) * Lr[l2] / Tr[t2] ** 2 == x * Lr[l1] / Tr[t1] ** 2, [], on_sat=replay_fn(U.convert_acc, (l1, t1, l2, t2), lambda xv: xv * Lr[l1] / Tr[t1] ** 2 * Tr[t2] ** 2 / Lr[l2]), domain='REAL (real Python code on z3 terms)')
             closed(U.convert_vel(U.convert_vel(x, l1, t1, l2, t2), l2, t2, l1, t1) == x, "velocity %s/%s <-> %s/%s reversible" % (l1, t1, l2, t2))
             closed(U.convert_acc(U.convert_acc(x, l1, t1, l2, t2), l2, t2, l1, t1) == x, "acceleration %s/%s^2 <-> %s/%s^2 reversible" % (l1, t1, l2, t2))
     # ---- Kepler's third law is unit independent, for every triple (exhaustive over names, symbolic a, M, P, K=4 pi^2)
@@ -91,7 +103,10 @@ def run_units(u):
                 ratio = (G2 * cm * ct * ct) / (cl ** 3) / U.G_SI
                 ob.prove("Kepler's third law invariant in (%s,%s,%s): G' m' P'^2 / a'^3 == G m P^2 / a^3 (ratio %.17g)" % (l, t, m, ratio), abs(ratio - 1.0) < 1e-12, [], domain='units tables (float, tolerance 1e-12)')
                 # the symbolic part: the converted particle and period are the linear images the ratio was computed from
-                closed(z3.And(p.m == M * z3.RealVal(repr(U.masses_SI['kg'])) / z3.RealVal(repr(U.masses_SI[m])), p.x == a * z3.RealVal(repr(U.lengths_SI['m'])) / z3.RealVal(repr(U.lengths_SI[l]))),
+                closed(z3.And(p.m == M * z3.RealVal(repr(U.masses_SI['kg'])) / z3.RealVal(repr(U.masses_SI[m])), p.x == a * z3.RealVal(repr(U.lengths_SI['m'])) / z3.RealVal(repr(U.lengths_SI[l])),
+                              p.y == p.x, p.z == p.x, p.r == p.x, p.vy == p.vx, p.vz == p.vx, p.ay == p.ax, p.az == p.ax,
+                              p.vx * U.lengths_SI[l] / U.times_SI[t] == a * U.lengths_SI['m'] / U.times_SI['s'],
+                              p.ax * U.lengths_SI[l] / U.times_SI[t] ** 2 == a * U.lengths_SI['m'] / U.times_SI['s'] ** 2),
                        "units_convert_particle is the documented linear map in (%s,%s,%s)" % (l, t, m))
                 # convert_G consistency with its definition
                 ob.prove("convert_G(%s,%s,%s) == G_SI m_u t_u^2 / l_u^3" % (l, t, m), abs(G2 - U.G_SI * U.masses_SI[m] * U.times_SI[t] ** 2 / U.lengths_SI[l] ** 3) <= 1e-15 * abs(G2), [], domain='float')
@@ -540,6 +555,12 @@ def native_to_new_axes(what, vals):
     return bad, 'C20:init_to_new_axes:degenerate-second-rotation', "reb_rotation_init_to_new_axes(newz=%r, newx=%r) maps newz to %r (must be on the +z axis)" % ((newz.x, newz.y, newz.z), (newx.x, newx.y, newx.z), (rz.x, rz.y, rz.z)), dict(kind='to_new_axes', what=what, vals=vals)
 
 def replay(data):
+    if data.get('kind') == 'units_fn':
+        U = load_units(); f_ = getattr(U, data['fn']); a_ = data['args']; xv = data['x']
+        Lr, Tr = U.lengths_SI, U.times_SI
+        want = xv * Lr[a_[0]] / Tr[a_[1]] ** (1 if data['fn'] == 'convert_vel' else 2) * Tr[a_[3]] ** (1 if data['fn'] == 'convert_vel' else 2) / Lr[a_[2]]
+        got = f_(xv, *a_)
+        return abs(got - want) > 1e-12 * abs(want), "%s(%r, %s) = %r, definition gives %r" % (data['fn'], xv, ', '.join(a_), got, want)
     if data.get('kind') == 'to_new_axes':
         r = native_to_new_axes(data['what'], data['vals']); return r[0], r[2]
     if data.get('kind') == 'frames': return native_frames(data['unit'], data['vals'])
